@@ -116,7 +116,7 @@ class Check:
             if new != old:
                 with open(path, "w") as f:
                     f.write(new)
-            self.coverage["functions_translated"] = new.count("\ndef ") - new.count(" : AggregateOperation := ")
+            self.coverage["functions_translated"] = len(re.findall(r"^def \S+ \(ext : Ext\)", new, re.M))
             return True
 
     # ---------------------------------------------------------------- P
